@@ -1,13 +1,13 @@
 #!/usr/bin/env python3
 """Prints a markdown table of what the evidence files say was covered (one row per check) - pasted into DESIGN.md 3.0."""
-import json, os, glob
+import json, os, glob, sys
 V = os.path.dirname(os.path.dirname(os.path.abspath(__file__)))
 def big(n):
     n = int(n)
     return '%.2f G' % (n / 1e9) if n >= 1e9 else '%.1f M' % (n / 1e6) if n >= 1e6 else '%.1f k' % (n / 1e3) if n >= 1e4 else str(n)
 print('| id | tier | level | evaluations | states / transitions (where the check is a state search) | distinct non-trivial | exhaustive | wall s | known-finding cases |')
 print('|---|---|---|---|---|---|---|---|---|')
-for f in sorted(glob.glob(os.path.join(V, 'evidence', 'C*.json'))):
+for f in sorted(glob.glob(os.path.join(V, sys.argv[1] if len(sys.argv) > 1 else 'evidence', 'C*.json'))):
     d = json.load(open(f)); c = d['coverage']
     st = ''
     if 'states' in c and 'transitions' in c and d['level'] == 'model_checking': st = '%s / %s' % (big(c['states']), big(c['transitions']))
